@@ -155,6 +155,12 @@ class ReachingDefs:
                 self.scopes.pop()
                 return n
 
+            def visit_NamedExpr(self, n):
+                if rename:
+                    return self.visit(n.value)  # the binding is looked through: uses are substituted by the value
+                n.value = self.visit(n.value)
+                return n
+
             def visit_Name(self, n):
                 for sc in reversed(self.scopes):
                     if n.id in sc:
@@ -193,6 +199,61 @@ class ReachingDefs:
 
     def acanon(self, expr, node: Node, depth=4) -> str:
         return src(self.alpha(expr, node, depth))
+
+
+def expansions(rd: "ReachingDefs", expr, node: Node, depth=4, cap=24) -> Set[str]:
+    """All texts `expr` may denote when every local name is replaced by each of its reaching
+    definitions (assignments / walrus: the value; loop targets: ELEM(<iterable>); with-as: CTX(<expr>)),
+    recursively.  Parameters and unknown names stay as they are."""
+    from .astq import ast_copy
+
+    def expand(e, at, d) -> List[ast.AST]:
+        names = [n for n in ast.walk(e) if isinstance(n, ast.Name) and isinstance(n.ctx, ast.Load)]
+        # comprehension-bound names are not locals of the function
+        bound = set()
+        for c in ast.walk(e):
+            if isinstance(c, (ast.ListComp, ast.SetComp, ast.DictComp, ast.GeneratorExp)):
+                for g in c.generators:
+                    bound |= {t.id for t in ast.walk(g.target) if isinstance(t, ast.Name)}
+            if isinstance(c, ast.Lambda):
+                bound |= {a.arg for a in c.args.args}
+        results = [e]
+        if d <= 0:
+            return results
+        for nm in sorted({n.id for n in names} - bound):
+            defs = [x for x in rd.defs_at(nm, at) if x.node is not None and x.node is not at]
+            if not defs or any(x.kind == "param" for x in rd.defs_at(nm, at)):
+                continue
+            alts = []
+            for x in defs:
+                if x.kind in ("assign", "walrus") and x.value is not None:
+                    for v in expand(x.value, x.node, d - 1):
+                        alts.append(v)
+                elif x.kind == "for" and x.value is not None:
+                    for v in expand(x.value, x.node, d - 1):
+                        alts.append(ast.Call(func=ast.Name(id="ELEM", ctx=ast.Load()), args=[v], keywords=[]))
+                elif x.kind == "with" and x.value is not None:
+                    for v in expand(x.value, x.node, d - 1):
+                        alts.append(ast.Call(func=ast.Name(id="CTX", ctx=ast.Load()), args=[v], keywords=[]))
+                else:
+                    alts.append(ast.Name(id=nm, ctx=ast.Load()))
+            new = []
+            for r in results:
+                for a in alts[:6]:
+                    class S(ast.NodeTransformer):
+                        def visit_Name(self, n):
+                            if n.id == nm and isinstance(n.ctx, ast.Load):
+                                return ast_copy(a)
+                            return n
+                    new.append(S().visit(ast_copy(r)))
+                    if len(new) >= cap:
+                        break
+                if len(new) >= cap:
+                    break
+            results = new or results
+        return results
+
+    return {src(x) for x in expand(expr, node, depth)}
 
 
 _TOKEN = None
